@@ -10,7 +10,7 @@ MODES = {'cancel': 8, 'plain': 1, 'suspendcancel': 2}
 
 def run(chk):
     ok = core.standard_proof_phase(chk, "C14", gen_needed=())
-    chk.notes["system_theorems"] = ['c14_no_sbatch_after_cancel', 'c14_monitor', 'c14_results_kept', 'c14_listed_batches_canceled']
+    chk.notes["system_theorems"] = ['c14_no_sbatch_after_cancel', 'c14_monitor', 'c14_results_kept', 'c14_listed_batches_canceled', 'c14_canceled_submission_completes_partial']
     chk.notes["partial"] = "'every active batch is asked to be canceled' and 'jobs that never ran are reported missing' are decided on impl by oracles; resubmission (which clears the flag) is outside the system model"
     cancel_without_active_batches(chk)
     syscheck.system_phase(chk, "C14", MODES, n_quick=150, n_thorough=3000, also=())
